@@ -232,6 +232,160 @@ func IsInput(v ssa.Value) bool {
 	return false
 }
 
+// ParamRead decodes a value that is, unchanged, what the caller handed in: a parameter (field == -1), or a field of
+// a struct parameter passed BY VALUE, read from the parameter's own cell. go/ssa spills such a parameter into a
+// local cell on entry (`t0 = local T (in); *t0 = in`) and reads its fields from there; the read is the caller's
+// value exactly when that cell is written by the spill alone and is only ever read field by field (its address goes
+// nowhere else, no field of it is stored to). A parameter list and a by-value record of the same values are the same
+// interface; rules that speak about "the parameter" use this to see both.
+func ParamRead(v ssa.Value) (p *ssa.Parameter, field int, ok bool) {
+	if q, isP := v.(*ssa.Parameter); isP {
+		return q, -1, true
+	}
+	ld, isLd := v.(*ssa.UnOp)
+	if !isLd || ld.Op != token.MUL {
+		return nil, 0, false
+	}
+	fa, isFA := ld.X.(*ssa.FieldAddr)
+	if !isFA {
+		return nil, 0, false
+	}
+	cell, isCell := fa.X.(*ssa.Alloc)
+	if !isCell {
+		return nil, 0, false
+	}
+	q := paramOfCell(cell)
+	if q == nil {
+		return nil, 0, false
+	}
+	return q, fa.Field, true
+}
+
+// paramOfCell: cell is the private copy of a by-value struct parameter (see ParamRead); nil otherwise.
+func paramOfCell(cell *ssa.Alloc) *ssa.Parameter {
+	if cell.Referrers() == nil {
+		return nil
+	}
+	var p *ssa.Parameter
+	for _, r := range *cell.Referrers() {
+		switch x := r.(type) {
+		case *ssa.Store:
+			q, isP := x.Val.(*ssa.Parameter)
+			if x.Addr != ssa.Value(cell) || !isP || p != nil {
+				return nil
+			}
+			p = q
+		case *ssa.FieldAddr:
+			if x.Referrers() == nil {
+				return nil
+			}
+			for _, r2 := range *x.Referrers() {
+				switch y := r2.(type) {
+				case *ssa.UnOp:
+					if y.Op != token.MUL {
+						return nil
+					}
+				case *ssa.DebugRef:
+				default:
+					return nil
+				}
+			}
+		case *ssa.DebugRef:
+		default:
+			return nil
+		}
+	}
+	if p == nil {
+		return nil
+	}
+	if _, isStruct := p.Type().Underlying().(*types.Struct); !isStruct {
+		return nil
+	}
+	// the parameter itself is used for the spill only
+	for _, r := range *p.Referrers() {
+		switch x := r.(type) {
+		case *ssa.Store:
+			if x.Addr != ssa.Value(cell) {
+				return nil
+			}
+		case *ssa.DebugRef:
+		default:
+			return nil
+		}
+	}
+	return p
+}
+
+// ParamPiece is one of the values a function was handed: a parameter, or a field of a by-value struct parameter
+// that is only read field by field (ParamRead), with the values through which the function reads it (the parameter
+// itself; every load of the field).
+type ParamPiece struct {
+	Param *ssa.Parameter
+	Field int // -1: the parameter as a whole
+	Reads []ssa.Value
+}
+
+// Uses counts the instructions that use the piece.
+func (pp ParamPiece) Uses() int {
+	n := 0
+	for _, v := range pp.Reads {
+		if v.Referrers() == nil {
+			continue
+		}
+		for _, r := range *v.Referrers() {
+			if _, isDbg := r.(*ssa.DebugRef); !isDbg {
+				n++
+			}
+		}
+	}
+	return n
+}
+
+// ParamPieces lists what a function was handed, piece by piece: one entry per parameter, and for a struct parameter
+// passed by value and only read field by field one entry per field that is read.
+func ParamPieces(fn *ssa.Function) []ParamPiece {
+	var out []ParamPiece
+	for _, p := range fn.Params {
+		var cell *ssa.Alloc
+		if _, isStruct := p.Type().Underlying().(*types.Struct); isStruct && p.Referrers() != nil {
+			for _, r := range *p.Referrers() {
+				if st, isSt := r.(*ssa.Store); isSt {
+					if a, isA := st.Addr.(*ssa.Alloc); isA && paramOfCell(a) == p {
+						cell = a
+					}
+				}
+			}
+		}
+		if cell == nil {
+			out = append(out, ParamPiece{Param: p, Field: -1, Reads: []ssa.Value{p}})
+			continue
+		}
+		byField := map[int]*ParamPiece{}
+		var order []int
+		for _, r := range *cell.Referrers() {
+			fa, isFA := r.(*ssa.FieldAddr)
+			if !isFA {
+				continue
+			}
+			pp := byField[fa.Field]
+			if pp == nil {
+				pp = &ParamPiece{Param: p, Field: fa.Field}
+				byField[fa.Field] = pp
+				order = append(order, fa.Field)
+			}
+			for _, r2 := range *fa.Referrers() {
+				if ld, isLd := r2.(*ssa.UnOp); isLd {
+					pp.Reads = append(pp.Reads, ld)
+				}
+			}
+		}
+		for _, i := range order {
+			out = append(out, *byField[i])
+		}
+	}
+	return out
+}
+
 // FieldRef describes an access x.f (address or value form).
 type FieldRef struct {
 	Base   ssa.Value
